@@ -615,3 +615,37 @@ MODULES["VectorOps"] = dict(
         dict(name="vzeros", file=V_MOD, impl=r"^<T:Clone\+Number>Vector<T>$", fn="zeros"),
         dict(name="vones", file=V_MOD, impl=r"^<T:Clone\+Number>Vector<T>$", fn="ones"),
     ])
+
+# ---------------------------------------------------------------------------------------------------- Roots (Model/Roots.v): round two
+# `impl Polynomial<Cmplx>`: quadratic_solve, cubic_solve over the model's two-sorted RootArith RA (a Section variable):
+# "elem" = f64 = T (SA (RR RA)), "celem" = Cmplx = T (KK RA).  Cmplx::new / .real / .imag / conj / abs, Complex * f64,
+# f64 * Complex (which delegates to Complex * f64, complex/mod.rs:117-133), Complex / f64, f64::abs, f64::max are the
+# operations of RA; the libm-backed Complex::sqrt / pow / polar are RA's oracle operations osqrt / opow / opolar (fallible);
+# 0.5 is rhalf RA, f64::EPSILON reps RA, an integral literal n. / n.0 is `n as f64` (rlit RA n).
+_RT_BIN = {("*", "elem", "celem"): dict(g="kmulr RA {1} {0}", ret="celem"),
+           ("*", "celem", "elem"): dict(g="kmulr RA {0} {1}", ret="celem"),
+           ("/", "celem", "elem"): dict(g="kdivr RA {0} {1}", ret="celem", fallible=True)}
+_RT_METHODS = {("celem", "sqrt", 0): dict(g="osqrt RA {0}", ret="celem", fallible=True),
+               ("celem", "pow", 1): dict(g="opow RA {0} {1}", ret="celem", fallible=True, args=["celem"]),
+               ("celem", "conj", 0): dict(g="kconj RA {0}", ret="celem"),
+               ("celem", "abs", 0): dict(g="kabs RA {0}", ret="elem"),
+               ("elem", "abs", 0): dict(g="rfabs RA {0}", ret="elem"),
+               ("elem", "sqrt", 0): dict(g="sqrt {0}", ret="elem"),
+               ("cvec", "size", 0): dict(g="length {0}", ret="usize")}
+_RT_PATHS = {("Cmplx::new", 2): dict(g="(mkk RA {0} {1})", ret="celem", atom=True, args=["elem", "elem"]),
+             ("Cmplx::zero", 0): dict(g="(@zero CA)", ret="celem", atom=True),
+             ("Cmplx::polar", 2): dict(g="opolar RA {0} {1}", ret="celem", fallible=True, args=["elem", "elem"]),
+             ("f64::max", 2): dict(g="rmax RA {0} {1}", ret="elem", args=["elem", "elem"]),
+             ("Vector::zeros", 1): dict(g="repeat (@zero CA) {0}", ret="cvec", args=["usize"])}
+RT_IMPL = r"^Polynomial<Cmplx>$"
+RUST_TYPES.append((r"^Polynomial<Cmplx>$", "cvec"))
+MODULES["Roots"] = dict(
+    imports="From OV Require Import Base.Panic Base.Arith Model.Complex gen.Params Model.Roots gen.SrcPrelude.",
+    context=["Variable RA : RootArith.", "Local Notation A := (SA (RR RA)).", "Local Notation CA := (KK RA)."],
+    spec=dict(sarith=True, lit_nat="(rlit RA {0})", literals={"0.5": "(rhalf RA)"}, binops=_RT_BIN, methods=_RT_METHODS, paths=_RT_PATHS,
+              fields={("celem", "real"): ("(kre RA {0})", "elem"), ("celem", "imag"): ("(kim RA {0})", "elem")},
+              consts={"f64::EPSILON": ("(reps RA)", "elem")}),
+    funcs=[
+        dict(name="quadratic_solve", file=P_MOD, impl=RT_IMPL, fn="quadratic_solve"),
+        dict(name="cubic_solve", file=P_MOD, impl=RT_IMPL, fn="cubic_solve"),
+    ])
